@@ -544,7 +544,30 @@ pub fn edited_by_hand(qr: &QRCode, seed: u64) -> (QRCode, String) {
     let mut rng = oracle::rng::Rng::new(oracle::rng::mix(seed, 0xed17));
     let mut e = qr.clone();
     let n = e.size;
-    let what = match rng.below(7) {
+    let what = match rng.below(10) {
+        7 | 8 => {
+            // whole modules (value and label) of different value trade places: every count, sum or checksum over the
+            // matrix stays what it was
+            let swaps = 1 + rng.below(6);
+            let mut done = 0;
+            for _ in 0..swaps * 20 {
+                let (a, b) = (rng.below(n * n), rng.below(n * n));
+                if e.data[a].value() != e.data[b].value() {
+                    e.data.swap(a, b);
+                    done += 1;
+                    if done == swaps {
+                        break;
+                    }
+                }
+            }
+            format!("{done} pair(s) of modules of different value swapped")
+        }
+        9 => {
+            for r in 0..n {
+                e.data[r * n..(r + 1) * n].reverse();
+            }
+            "every row mirrored".to_string()
+        }
         0 | 1 => {
             let edits = 1 + rng.below(4);
             for k in 0..edits {
